@@ -36,6 +36,9 @@ type RunCtx struct {
 	Decoded   any
 	Blob      []byte
 	Log       []string // event log used for the determinism self-test
+	// Degraded is set when the scheduler met blocking it does not model and let threads overlap: the run's
+	// interleaving is then not fully decided by the tape and its replay is best-effort.
+	Degraded bool
 	// Fatal is set when the run left the process in a state that must not be
 	// reused (a simulated thread is blocked for real): the worker stops after it.
 	Fatal bool
